@@ -81,6 +81,7 @@ fn main() {
         "K02" => compileprops::run_k02(&tier, seed, &out),
         "K16" => compileprops::run_k16(&tier, seed, &out),
         "K04" => compileprops::run_k04(&tier, seed, &out),
+        "K03" => compileprops::run_k03(&tier, seed, &out),
         "K14" => compileprops::run_k14(&tier, seed, &out),
         "K15" => compileprops::run_k15(&tier, seed, &out),
         // the emitted-crate stage of properties whose first stage is on the HIR: `lnv E05 ..` etc.
